@@ -113,10 +113,10 @@ func JSONGetNaturalLanguageField(val *fastjson.Value, prop string) NaturalLangua
 		ob.Visit(func(key []byte, v *fastjson.Value) {
 			l := LangRefValue{}
 			l.Ref = LangRef(key)
-			if err := l.Value.UnmarshalJSON(v.GetStringBytes()); err == nil {
-				if l.Ref != NilLangRef || len(l.Value) > 0 {
-					n = append(n, l)
-				}
+			// the parser has already decoded the JSON string: its bytes are the text
+			l.Value = append(Content{}, v.GetStringBytes()...)
+			if l.Ref != NilLangRef || len(l.Value) > 0 {
+				n = append(n, l)
 			}
 		})
 	case fastjson.TypeString:
